@@ -340,6 +340,8 @@ class Exec(Interp):
                 out.append((i, self.pure_eval(x, frame)))
             return out
         set_k(0)
+        for g, e0 in spec.get('ghost_entry', {}).items():
+            self.ghost[gsub(g)] = self.pure_eval(gsub(e0), fr)      # constants captured at loop entry
         for g, e0 in gi.items():
             self.ghost[g] = self.pure_eval(e0, fr)
         for i, g in eval_invs(fr):
@@ -387,7 +389,9 @@ class Exec(Interp):
             elif seq is None or infinite:
                 self.assumptions.add('termination of loop #%d of %s not proved (no variant)' % (o, self.qualname))
             raise PathEnd()
-        # loop exit
+        # loop exit: assertions the contract attaches to the normal exit of this loop
+        for i, x in enumerate(spec.get('exit', [])):
+            self.ctx.oblige(self.oname('loop-exit', line, i), self.as_goal(self.pure_eval(gsub(x), fr)), 'post', line)
         self.block(s.orelse, fr)
 
     def havoc_loop(self, s, fr, spec):
